@@ -259,6 +259,14 @@ def request_form(req):
     return "other"
 
 
+def request_path(target):
+    """Path of a request target in origin-form or absolute-form."""
+    if "://" in target:
+        rest = target.split("://", 1)[1]
+        return "/" + rest.split("/", 1)[1] if "/" in rest else "/"
+    return target
+
+
 BLANK = {"ev": "", "cid": 0, "k": 0, "party": "", "form": "", "method": "", "target": "", "hdr": [], "host": "",
          "outer": "none", "inner": "none", "sni": "", "layer": "", "cert": "", "done": False, "code": "",
          "kind": "", "status": 0, "by": "", "exc": []}
@@ -273,13 +281,15 @@ def event(**kw):
 class ProxyNet:
     """One scenario's network.  `cfg`: ps (proxy scheme), pcert, ocert, dest (URL host as written).
     `replies`: CONNECT replies by CONNECT ordinal (default "200"); `close_after`: set of request
-    ordinals k after whose response the party closes the connection that carried it."""
+    paths after whose answer the party closes the connection that carried it; `redirs`: request
+    path -> (3xx code, Location) answered instead of 200 (by whichever party receives that request)."""
 
-    def __init__(self, cfg, replies=(), close_after=()):
+    def __init__(self, cfg, replies=(), close_after=(), redirs=None):
         self.cfg = cfg
         self.world = World.get()
         self.replies = list(replies)
         self.close_after = set(close_after)
+        self.redirs = dict(redirs or {})
         self.events = []
         self.raw = []                 # (cid, party, raw head bytes) byte-exact
         self.lock = threading.Lock()
@@ -409,13 +419,13 @@ class ProxyNet:
                     self.nconnect += 1
                     n = self.nconnect
                 code = self.replies[n - 1] if n - 1 < len(self.replies) else "200"
+                self.log(ev="reply", cid=cid, code=code)     # logged before it leaves (see _answer)
                 if code == "garbage":
                     layer.sendall(GARBAGE)
                 elif code == "200":
                     layer.sendall(b"HTTP/1.1 200 Connection established\r\n\r\n")
                 else:
                     layer.sendall(f"HTTP/1.1 {code} {REASONS[code]}\r\nContent-Length: 0\r\n\r\n".encode())
-                self.log(ev="reply", cid=cid, code=code)
                 if code == "200":
                     self._origin(cid, layer, outer, bytes(parser.inbuf))
                     return
@@ -428,12 +438,25 @@ class ProxyNet:
                     self.log(ev="msg", cid=cid, party="proxy", form="afterrefusal", outer=outer, k=self.cur_k)
                 return
             # forwarded request: the proxy answers for the destination
-            k = self.cur_k
-            body = b"proxy " + req.target.encode("latin-1", "replace")
-            layer.sendall(net.http_response(200, body))
-            if k in self.close_after:
-                self.log(ev="pclose", cid=cid)
+            if self._answer(cid, layer, req, b"proxy "):
                 return
+
+    def _answer(self, cid, layer, req, who):
+        """Scripted answer to one request (200 with a body naming the answering party, or a redirect);
+        returns True when the party then closes the connection."""
+        path = request_path(req.target)
+        rd = self.redirs.get(path)
+        close = path in self.close_after
+        # everything is logged BEFORE the answer leaves: the client moves on as soon as it has the answer
+        if rd is not None:
+            self.log(ev="redir", cid=cid, code=rd[0], target=rd[1])
+        if close:
+            self.log(ev="pclose", cid=cid)
+        if rd is not None:
+            layer.sendall(net.http_response(int(rd[0]), b"", headers=[("Location", rd[1])], reason="Redirect"))
+        else:
+            layer.sendall(net.http_response(200, who + req.target.encode("latin-1", "replace")))
+        return close
 
     def _origin(self, cid, lower, outer, leftover):
         """Everything after `200 Connection established` belongs to the origin."""
@@ -467,8 +490,5 @@ class ProxyNet:
             self.log(ev="msg", cid=cid, party="origin", form=request_form(req), method=req.method, target=req.target,
                      hdr=header_kinds(req), host=req.header("Host", ""), outer=outer, inner=inner, sni=sni,
                      k=self.cur_k)
-            k = self.cur_k
-            layer.sendall(net.http_response(200, b"origin " + req.target.encode("latin-1", "replace")))
-            if k in self.close_after:
-                self.log(ev="pclose", cid=cid)
+            if self._answer(cid, layer, req, b"origin "):
                 return
